@@ -199,3 +199,39 @@ Proof.
     apply tuple_inv. eapply runs_chain; [|exact Hr].
     intros a Ha k0 e0 d0 k1 Hg. rewrite Forall_forall in IH. eapply (IH a Ha). exact Hg.
 Qed.
+
+Lemma tuple_size_ge : forall c k es dss k' e, chain c k es dss k' -> In e es ->
+  (e_size e <= e_size (encode_tuple es))%nat.
+Proof.
+  intros c k es dss k' e Hc Hin. unfold encode_tuple. rewrite fold_head_sum. cbn [Nat.add].
+  destruct (et_loop es (lsum (map head_size es))) as [[h t] s] eqn:El.
+  destruct (et_loop_inv _ _ _ _ _ Hc _ _ _ _ El) as (F1 & F2 & F3 & F4 & F5 & F6 & F7 & F8).
+  cbn [e_size]. specialize (F8 e Hin). lia.
+Qed.
+
+Lemma tuple_static : forall c k es dss k', chain c k es dss k' ->
+  e_static (encode_tuple es) = forallb e_static es /\
+  (forallb e_static es = true -> e_size (encode_tuple es) = lsum (map e_size es)).
+Proof.
+  intros c k es dss k' Hc. unfold encode_tuple. rewrite fold_head_sum. cbn [Nat.add].
+  destruct (et_loop es (lsum (map head_size es))) as [[h t] s] eqn:El.
+  destruct (et_loop_inv _ _ _ _ _ Hc _ _ _ _ El) as (F1 & F2 & F3 & F4 & F5 & F6 & F7 & F8).
+  cbn [e_static e_size]. split.
+  - destruct t as [|x t].
+    + symmetry. apply F6. reflexivity.
+    + destruct (forallb e_static es) eqn:E; [|reflexivity].
+      destruct F6 as [_ F6]. specialize (F6 eq_refl). discriminate.
+  - intros Hs. destruct F6 as [_ F6]. rewrite (F6 Hs) in F2. cbn in F2. subst s.
+    rewrite Nat.add_0_r. clear -Hs. induction es as [|e es IH]; [reflexivity|].
+    cbn in Hs. apply andb_true_iff in Hs. destruct Hs as [H1 H2].
+    cbn [map lsum]. rewrite IH by exact H2. rewrite head_size_spec, H1. reflexivity.
+Qed.
+
+Lemma runs_Forall : forall {A} (g : A -> nat -> R) (P : enc -> Prop) l k es dss k',
+  (forall a, In a l -> forall k e d k1, g a k = (e, d, k1) -> P e) ->
+  runs g l k es dss k' -> Forall P es.
+Proof.
+  intros A g P l k es dss k' Hg H. induction H; constructor.
+  - eapply Hg; [left; reflexivity|eassumption].
+  - apply IHruns. intros a' Ha'. apply Hg. right. exact Ha'.
+Qed.
